@@ -240,6 +240,22 @@ func runC05(c *core.Ctx, o Options) {
 			c.Check(ls.Holds(mu, "s", an.ModeW), "K1", "Session.send", st.name+" executes with Session.mu held", st.in.Pos(),
 				"lockset "+ls.String(), "lockset here is "+ls.String()+": another sender can interleave between taking the number and enqueueing")
 		}
+		// "a sending time taken at send time": the clock is read inside the region, after the number was taken
+		var clock *ssa.Call
+		an.AllInstrs(send, func(in ssa.Instruction) {
+			if call, ok := in.(*ssa.Call); ok {
+				if cal := an.StaticCallee(&call.Call); cal != nil && (an.FuncIs(cal, "session", "Session.CurrentTime") || an.FuncIs(cal, "time", "Now")) {
+					clock = call
+				}
+			}
+		})
+		if clock != nil {
+			ls := la.At[clock]
+			c.Check(ls.Holds(mu, "s", an.ModeW) && an.Dominates(next, clock) && an.Dominates(clock, rsend), "K5", "Session.send", "the clock is read between taking the number and Router.Send, under Session.mu", clock.Pos(),
+				"GetNextSeqNum → CurrentTime() → Router.Send, lockset "+ls.String(), "the sending time is read outside the numbering region (lockset "+ls.String()+"): under contention a message carries a time taken before its number was allocated, and later numbers can carry earlier times")
+		} else {
+			c.Ob("K5", "Session.send", "the clock is read in send", send.Pos()).Fail("send does not read the clock (CurrentTime) itself: the sending time is not taken at send time")
+		}
 		// order inside the region
 		okOrder := an.Dominates(next, rsend)
 		for _, cl := range stamps {
@@ -496,7 +512,7 @@ func runC05(c *core.Ctx, o Options) {
 		ent := la.Entry[hsend]
 		c.Check(ent.Holds(hmu, "h", an.ModeW), "K8", "DefaultHandler.send", "every caller of send holds DefaultHandler.mu", hsend.Pos(), "entry lockset "+ent.String(), "send is reachable without DefaultHandler.mu (entry lockset "+ent.String()+")")
 	}
-	c.RuleMin = map[string]int{"K1": 6, "K2": 4, "K3": 8, "K4": 3, "K5": 7, "K6": 1, "K7": 3, "K8": 3, "K9": 2, "K10": 4}
+	c.RuleMin = map[string]int{"K1": 6, "K2": 4, "K3": 8, "K4": 3, "K5": 8, "K6": 1, "K7": 3, "K8": 3, "K9": 2, "K10": 4}
 	c.MinObl = 35
 }
 
